@@ -15,7 +15,11 @@ def render_nodes(addr, length, endian, nodes, cachable="NoCache", sibling_invali
     names = ["N%d" % i for i in range(len(nodes))]
     for i, n in enumerate(nodes):
         kw = dict(cachable=n.get("cachable", cachable), access=n.get("access", "RW"))
-        if sibling_invalidators:
+        if sibling_invalidators == "all":
+            # one list for the whole structure, every node's own name in it (as a StructReg-level declaration gives),
+            # rotated so that the node's own name stands at a different place for each sibling
+            kw["invalidators"] = names[i // 2:] + names[:i // 2]
+        elif sibling_invalidators:
             kw["invalidators"] = [x for j, x in enumerate(names) if j != i]
         en = "BigEndian" if endian else "LittleEndian"
         sg = "Signed" if n.get("sign") else "Unsigned"
